@@ -483,27 +483,31 @@ func lemmaRawKidsIsRender(last, mid branchFormat, n *Node, i int) {
 //@   ensures fresh: fresh(result) && result.n == 0
 //@ func gtree.counter.next
 //@   requires nn: c != nil
-//@   modifies c.n
+//@   modifies c.n, c.mu.wheld
+//@   ensures unlocked [C12]: !c.mu.wheld
 //@   ensures inc [C09]: c.n == old(c.n) + 1 && result == c.n
 //@ func gtree.counter.reset
 //@   requires nn: c != nil
-//@   modifies c.n
+//@   modifies c.n, c.mu.wheld
+//@   ensures unlocked [C12]: !c.mu.wheld
 //@   ensures zero [C09]: c.n == 0
 //@ func gtree.counter.current
 //@   requires nn: c != nil
+//@   modifies c.mu.rheld
+//@   ensures unlocked [C12]: !c.mu.rheld
 //@   ensures cur [C09]: result == c.n
 
 // ---------------------------------------------------------------------------------------------
 // tree_handler_programmably.go: building trees
 
 //@ func gtree.NewRoot
-//@   modifies idxCounter.n
+//@   modifies idxCounter.n, counter.mu.wheld
 //@   ensures root [C03,C13]: fresh(result) && result.name == text && result.hierarchy == 1 && result.parent == nil && len(result.children) == 0
 
 //@ func gtree.Node.Add
 //@   requires nn: parent != nil
 //@   requires attached: parent.hierarchy == 1 || parent.parent != nil
-//@   modifies parent.children, idxCounter.n
+//@   modifies parent.children, idxCounter.n, counter.mu.wheld
 //@   ensures dedupe [C03,C13]: old(hasChildNamed(parent, text)) ==> contains(old(parent.children), result) && result.name == text && parent.children == old(parent.children) && !fresh(result)
 //@   ensures append [C03,C13]: !old(hasChildNamed(parent, text)) ==> fresh(result) && result.name == text && result.hierarchy == parent.hierarchy + 1 && result.parent == parent && len(result.children) == 0 && parent.children == old(parent.children) ++ seqof(result)
 //@   ensures frame [C13]: (forall q *Node :: {q.parent} !fresh(q) ==> q.parent == old(q.parent)) && (forall q *Node :: {q.name} !fresh(q) ==> q.name == old(q.name)) && (forall q *Node :: {q.hierarchy} !fresh(q) ==> q.hierarchy == old(q.hierarchy))
@@ -697,7 +701,7 @@ func specPreorderAll(roots []*Node, i int) []*Node {
 //@ applies fromRootWalkIter to gtree.WalkIterFromRoot, gtree.WalkIterProgrammably
 //@ closure gtree.WalkIterFromRoot#1
 //@   yields walkOut(root)
-//@   modifies Node.brnch.value, Node.brnch.path, counter.n, lastConfig, itTrace0, itTrace1, itFailed1, itStopped1, itTrace2, itFailed2, itStopped2, itErr2
+//@   modifies Node.brnch.value, Node.brnch.path, counter.n, lastConfig, itTrace0, itTrace1, itFailed1, itStopped1, itTrace2, itFailed2, itStopped2, itErr2, counter.mu.wheld, counter.mu.rheld
 //@   ensures nilnode [C03]: root == nil ==> itErr2 == ErrNilNode && len(itTrace2) == 0
 //@   ensures notroot [C03]: root != nil && root.hierarchy != 1 ==> itErr2 == ErrNotRoot && len(itTrace2) == 0
 //@ loop gtree.WalkIterFromRoot#1#1
@@ -705,7 +709,7 @@ func specPreorderAll(roots []*Node, i int) []*Node {
 //@   invariant cfg: lastConfig == cfg && cfg != nil && root != nil && root.hierarchy == 1
 //@ closure gtree.WalkIterProgrammably#1
 //@   yields walkOut(root)
-//@   modifies Node.brnch.value, Node.brnch.path, counter.n, lastConfig, itTrace0, itTrace1, itFailed1, itStopped1, itTrace2, itFailed2, itStopped2, itErr2
+//@   modifies Node.brnch.value, Node.brnch.path, counter.n, lastConfig, itTrace0, itTrace1, itFailed1, itStopped1, itTrace2, itFailed2, itStopped2, itErr2, counter.mu.wheld, counter.mu.rheld
 //@   ensures nilnode [C03]: root == nil ==> itErr2 == ErrNilNode && len(itTrace2) == 0
 //@   ensures notroot [C03]: root != nil && root.hierarchy != 1 ==> itErr2 == ErrNotRoot && len(itTrace2) == 0
 //@ loop gtree.WalkIterProgrammably#1#1
@@ -746,7 +750,7 @@ func specPreorderAll(roots []*Node, i int) []*Node {
 //@ func gtree.colorizeSpreaderSimple.spread
 //@   requires ok: colorizeOK(cs)
 //@   requires roots: forall k int :: {roots[k]} 0 <= k && k < len(roots) ==> roots[k] != nil
-//@   modifies out, wfail, cs.fileCounter.n, cs.dirCounter.n
+//@   modifies out, wfail, cs.fileCounter.n, cs.dirCounter.n, counter.mu.rheld, counter.mu.wheld
 //@   ensures report [C09]: result == nil ==> out[w] == old(out[w]) ++ specDryReport(cs.fileColor, cs.dirColor, cs.fileConsiderer.extensions, roots, len(roots)) && wfail == old(wfail)
 //@   ensures fail [C14]: result != nil ==> wfail
 //@   ensures sticky: old(wfail) ==> wfail
@@ -754,7 +758,7 @@ func specPreorderAll(roots []*Node, i int) []*Node {
 //@   invariant sofar: ret == specDryReport(cs.fileColor, cs.dirColor, cs.fileConsiderer.extensions, roots, $i)
 //@ func gtree.treeSimple.outputProgrammably
 //@   requires ok: simpleTreeOK(t, cfg) && root != nil && root.hierarchy == 1
-//@   modifies Node.brnch.value, Node.brnch.path, out, wfail, defaultGrowSpreaderSimple.w, defaultSpreaderSimple.w, counter.n, encTrace, encoders, spText
+//@   modifies Node.brnch.value, Node.brnch.path, out, wfail, defaultGrowSpreaderSimple.w, defaultSpreaderSimple.w, counter.n, encTrace, encoders, spText, counter.mu.wheld, counter.mu.rheld
 //@   ensures render [C03,C13]: cfg.encode == encodeDefault && result == nil ==> out[w] == old(out[w]) ++ specRender(cfg.lastNodeFormat, cfg.intermedialNodeFormat, root)
 //@   ensures accepted [C14]: cfg.encode == encodeDefault && result == nil ==> wfail == old(wfail)
 //@   ensures text [C03]: cfg.encode == encodeDefault && result != nil ==> wfail
@@ -1048,7 +1052,7 @@ func lemmaLastEncodePrefix(opts []Option, o Option, i int) {
 // The massive (pipeline) implementations are not under contract (C10, C11 are not applicable to this technique).
 //@ func gtree.treePipeline.outputProgrammably
 //@   requires ok: pipelineTreeOK(t, cfg) && root != nil && root.hierarchy == 1
-//@   modifies Node.brnch.value, Node.brnch.path, out, wfail, defaultGrowSpreaderSimple.w, defaultSpreaderSimple.w, counter.n, encTrace, encoders, spText, dryRoots, errSent, stageSpread, stageWriter, ctxCancelled, splSent, lnNodes, lnRootCount, lnRejected, splSharp, splCutOK, ctxDoneSeen, gcRecv, rcRecv, rcSentOK, lnConsumed, gcSent, errRecv
+//@   modifies Node.brnch.value, Node.brnch.path, out, wfail, defaultGrowSpreaderSimple.w, defaultSpreaderSimple.w, counter.n, encTrace, encoders, spText, dryRoots, errSent, stageSpread, stageWriter, ctxCancelled, splSent, lnNodes, lnRootCount, lnRejected, splSharp, splCutOK, ctxDoneSeen, gcRecv, rcRecv, rcSentOK, lnConsumed, gcSent, errRecv, counter.mu.wheld, counter.mu.rheld, defaultSpreaderPipeline.Mutex.held
 //@   ensures staged [C04]: cfg.encode >= encodeJSON && cfg.encode <= encodeTOML && !cfg.dryrun ==> stageSpread == t.spreader && stageWriter == w
 //@   ensures reported [C14]: result == nil ==> errRecv == old(errRecv)
 //@   ensures dryfs [C09]: fsOps == old(fsOps) && fsFailed == old(fsFailed)
@@ -1069,7 +1073,7 @@ func lemmaLastEncodePrefix(opts []Option, o Option, i int) {
 //@   modifies rcSentOK
 
 //@ contract fromRootOutput
-//@   modifies Node.brnch.value, Node.brnch.path, out, wfail, defaultGrowSpreaderSimple.w, defaultSpreaderSimple.w, counter.n, encTrace, encoders, lastConfig, spText, dryRoots, errSent, stageSpread, stageWriter, ctxCancelled, splSent, lnNodes, lnRootCount, lnRejected, splSharp, splCutOK, ctxDoneSeen, gcRecv, rcRecv, rcSentOK, lnConsumed, gcSent, errRecv
+//@   modifies Node.brnch.value, Node.brnch.path, out, wfail, defaultGrowSpreaderSimple.w, defaultSpreaderSimple.w, counter.n, encTrace, encoders, lastConfig, spText, dryRoots, errSent, stageSpread, stageWriter, ctxCancelled, splSent, lnNodes, lnRootCount, lnRejected, splSharp, splCutOK, ctxDoneSeen, gcRecv, rcRecv, rcSentOK, lnConsumed, gcSent, errRecv, counter.mu.wheld, counter.mu.rheld, defaultSpreaderPipeline.Mutex.held
 //@   ghostset lastConfig := cfg
 //@   ensures nilnode [C03]: root == nil ==> result == ErrNilNode && out == old(out) && wfail == old(wfail)
 //@   ensures notroot [C03]: root != nil && root.hierarchy != 1 ==> result == ErrNotRoot && out == old(out) && wfail == old(wfail)
@@ -1079,7 +1083,7 @@ func lemmaLastEncodePrefix(opts []Option, o Option, i int) {
 //@ contract fromRootWalk
 //@   param callback follows walkCallback
 //@   requires live: !cbFailed
-//@   modifies Node.brnch.value, Node.brnch.path, cbTrace, cbFailed, cbLastErr, cbAfterFail, counter.n, lastConfig, errSent, ctxCancelled, splSent, lnNodes, lnRootCount, lnRejected, splSharp, splCutOK, ctxDoneSeen, gcRecv, rcRecv, rcSentOK, lnConsumed, gcSent, errRecv
+//@   modifies Node.brnch.value, Node.brnch.path, cbTrace, cbFailed, cbLastErr, cbAfterFail, counter.n, lastConfig, errSent, ctxCancelled, splSent, lnNodes, lnRootCount, lnRejected, splSharp, splCutOK, ctxDoneSeen, gcRecv, rcRecv, rcSentOK, lnConsumed, gcSent, errRecv, counter.mu.wheld, counter.mu.rheld
 //@   ghostset lastConfig := cfg
 //@   ensures nilnode [C03]: root == nil ==> result == ErrNilNode && cbTrace == old(cbTrace)
 //@   ensures notroot [C03]: root != nil && root.hierarchy != 1 ==> result == ErrNotRoot && cbTrace == old(cbTrace)
@@ -1104,7 +1108,7 @@ func lemmaLastEncodePrefix(opts []Option, o Option, i int) {
 
 //@ func gtree.nodeGenerator.generate
 //@   requires nn: ng != nil && md.parserOK(ng.parser)
-//@   modifies ng.parser.isSharpRoot, ng.parser.spaces, ng.parser.sep
+//@   modifies ng.parser.isSharpRoot, ng.parser.spaces, ng.parser.sep, markdown.Parser.mu.wheld
 //@   ensures st': md.parserOK(ng.parser)
 //@   ensures blank [C02,C12,C15]: md.allSpace(row) ==> result0 == nil && result1 == nil && ng.parser.isSharpRoot == old(ng.parser.isSharpRoot) && ng.parser.spaces == old(ng.parser.spaces) && ng.parser.sep == old(ng.parser.sep)
 //@   ensures one [C12]: !md.allSpace(row) ==> (result0 != nil) == (result1 == nil)
@@ -1134,7 +1138,7 @@ func lemmaLastEncodePrefix(opts []Option, o Option, i int) {
 //@ func gtree.rootGeneratorSimple.generate
 //@   requires ok: genOK(rg)
 //@   requires start: rg.scanner.pos == 0 && len(lnNodes) == 0
-//@   modifies Node.children, Node.parent, list.List.view, list.Element.backOf, rg.counter.n, rg.scanner.pos, rg.scanner.failed, rg.nodeGenerator.parser.isSharpRoot, rg.nodeGenerator.parser.spaces, rg.nodeGenerator.parser.sep, lnNodes
+//@   modifies Node.children, Node.parent, list.List.view, list.Element.backOf, rg.counter.n, rg.scanner.pos, rg.scanner.failed, rg.nodeGenerator.parser.isSharpRoot, rg.nodeGenerator.parser.spaces, rg.nodeGenerator.parser.sep, lnNodes, counter.mu.wheld, markdown.Parser.mu.wheld
 //@   after generate: lnNodes := (result0 == nil && result1 == nil) ? lnNodes ++ seqof(nil) : lnNodes
 //@   after push: lnNodes := lnNodes ++ seqof(arg0)
 //@   after dfs: lnNodes := result ? lnNodes ++ seqof(as(last(recv.nodes.view), Node)) : lnNodes
@@ -1169,7 +1173,7 @@ func allRootsT(rs []*Node) bool { return true }
 // the generator did not fail.
 //@ func gtree.treeSimple.output
 //@   requires ok: simpleTreeOK(t, cfg)
-//@   modifies Node.children, Node.parent, Node.brnch.value, Node.brnch.path, list.List.view, list.Element.backOf, counter.n, bufio.Scanner.pos, bufio.Scanner.failed, markdown.Parser.isSharpRoot, markdown.Parser.spaces, markdown.Parser.sep, out, wfail, defaultSpreaderSimple.w, encTrace, encoders, lastForest, lnNodes, rsRoots, rsFailed, rsStopped, rsErr, gsRoots, gsFailed, gsStopped, gsErr, spRoots, spText, esFailed
+//@   modifies Node.children, Node.parent, Node.brnch.value, Node.brnch.path, list.List.view, list.Element.backOf, counter.n, bufio.Scanner.pos, bufio.Scanner.failed, markdown.Parser.isSharpRoot, markdown.Parser.spaces, markdown.Parser.sep, out, wfail, defaultSpreaderSimple.w, encTrace, encoders, lastForest, lnNodes, rsRoots, rsFailed, rsStopped, rsErr, gsRoots, gsFailed, gsStopped, gsErr, spRoots, spText, esFailed, counter.mu.wheld, counter.mu.rheld, markdown.Parser.mu.wheld
 //@   ghostset lastForest := roots
 //@   use lemma lemmaRawAllIsRenderAll
 //@   ensures accepted [C14]: cfg.encode == encodeDefault && result == nil ==> old(wfail) || !wfail
@@ -1183,7 +1187,7 @@ func allRootsT(rs []*Node) bool { return true }
 //@   param callback follows walkCallback
 //@   requires ok: simpleTreeOK(t, cfg)
 //@   requires live: !cbFailed
-//@   modifies Node.children, Node.parent, Node.brnch.value, Node.brnch.path, list.List.view, list.Element.backOf, counter.n, bufio.Scanner.pos, bufio.Scanner.failed, markdown.Parser.isSharpRoot, markdown.Parser.spaces, markdown.Parser.sep, cbTrace, cbFailed, cbLastErr, cbAfterFail, lastForest, lnNodes
+//@   modifies Node.children, Node.parent, Node.brnch.value, Node.brnch.path, list.List.view, list.Element.backOf, counter.n, bufio.Scanner.pos, bufio.Scanner.failed, markdown.Parser.isSharpRoot, markdown.Parser.spaces, markdown.Parser.sep, cbTrace, cbFailed, cbLastErr, cbAfterFail, lastForest, lnNodes, counter.mu.wheld, counter.mu.rheld, markdown.Parser.mu.wheld
 //@   ghostset lastForest := roots
 //@   ensures all [C05]: result == nil ==> !cbFailed && (allRoots(lastForest) && cbTrace == old(cbTrace) ++ specPreorderAll(lastForest, len(lastForest)) && (cfg.encode == encodeDefault ==> (forall k int :: {lastForest[k]} 0 <= k && k < len(lastForest) ==> grown(cfg.lastNodeFormat, cfg.intermedialNodeFormat, lastForest[k]))))
 //@   ensures stop [C05]: cbFailed ==> result == cbLastErr && result != nil
@@ -1221,18 +1225,18 @@ func lemmaRawAllIsRenderAll(last, mid branchFormat, roots []*Node, i int) {
 
 //@ func gtree.treePipeline.output
 //@   requires ok: pipelineTreeOK(t, cfg)
-//@   modifies Node.children, Node.parent, Node.brnch.value, Node.brnch.path, list.List.view, list.Element.backOf, counter.n, bufio.Scanner.pos, bufio.Scanner.failed, markdown.Parser.isSharpRoot, markdown.Parser.spaces, markdown.Parser.sep, out, wfail, defaultSpreaderSimple.w, encTrace, encoders, lastForest, lnNodes, rsRoots, rsFailed, rsStopped, rsErr, gsRoots, gsFailed, gsStopped, gsErr, spRoots, spText, dryRoots, esFailed, errSent, stageSpread, stageWriter, ctxCancelled, splSent, lnRootCount, lnRejected, splSharp, splCutOK, ctxDoneSeen, gcRecv, rcRecv, rcSentOK, lnConsumed, gcSent, errRecv
+//@   modifies Node.children, Node.parent, Node.brnch.value, Node.brnch.path, list.List.view, list.Element.backOf, counter.n, bufio.Scanner.pos, bufio.Scanner.failed, markdown.Parser.isSharpRoot, markdown.Parser.spaces, markdown.Parser.sep, out, wfail, defaultSpreaderSimple.w, encTrace, encoders, lastForest, lnNodes, rsRoots, rsFailed, rsStopped, rsErr, gsRoots, gsFailed, gsStopped, gsErr, spRoots, spText, dryRoots, esFailed, errSent, stageSpread, stageWriter, ctxCancelled, splSent, lnRootCount, lnRejected, splSharp, splCutOK, ctxDoneSeen, gcRecv, rcRecv, rcSentOK, lnConsumed, gcSent, errRecv, counter.mu.wheld, counter.mu.rheld, markdown.Parser.mu.wheld, defaultSpreaderPipeline.Mutex.held
 //@   ensures staged [C04]: cfg.encode >= encodeJSON && cfg.encode <= encodeTOML && !cfg.dryrun ==> stageSpread == t.spreader && stageWriter == w
 //@   ensures reported [C14]: result == nil ==> errRecv == old(errRecv)
 //@   ensures dryfs [C09]: fsOps == old(fsOps) && fsFailed == old(fsFailed)
 //@ func gtree.treePipeline.walk
 //@   requires ok: pipelineTreeOK(t, cfg)
-//@   modifies Node.children, Node.parent, Node.brnch.value, Node.brnch.path, list.List.view, list.Element.backOf, counter.n, bufio.Scanner.pos, bufio.Scanner.failed, markdown.Parser.isSharpRoot, markdown.Parser.spaces, markdown.Parser.sep, cbTrace, cbFailed, cbLastErr, cbAfterFail, lastForest, lnNodes, errSent, ctxCancelled, splSent, lnRootCount, lnRejected, splSharp, splCutOK, ctxDoneSeen, gcRecv, rcRecv, rcSentOK, lnConsumed, gcSent, errRecv
+//@   modifies Node.children, Node.parent, Node.brnch.value, Node.brnch.path, list.List.view, list.Element.backOf, counter.n, bufio.Scanner.pos, bufio.Scanner.failed, markdown.Parser.isSharpRoot, markdown.Parser.spaces, markdown.Parser.sep, cbTrace, cbFailed, cbLastErr, cbAfterFail, lastForest, lnNodes, errSent, ctxCancelled, splSent, lnRootCount, lnRejected, splSharp, splCutOK, ctxDoneSeen, gcRecv, rcRecv, rcSentOK, lnConsumed, gcSent, errRecv, counter.mu.wheld, counter.mu.rheld, markdown.Parser.mu.wheld
 //@   ensures reported [C14]: result == nil ==> errRecv == old(errRecv)
 //@   param callback follows walkCallback
 
 //@ contract fromMarkdownOutput
-//@   modifies Node.children, Node.parent, Node.brnch.value, Node.brnch.path, list.List.view, list.Element.backOf, counter.n, bufio.Scanner.pos, bufio.Scanner.failed, markdown.Parser.isSharpRoot, markdown.Parser.spaces, markdown.Parser.sep, out, wfail, defaultSpreaderSimple.w, encTrace, encoders, libWriter, libFailed, libCalls, libReader, lastCtxLive, lastConfig, lastForest, lnNodes, rsRoots, rsFailed, rsStopped, rsErr, gsRoots, gsFailed, gsStopped, gsErr, spRoots, spText, dryRoots, esFailed, errSent, stageSpread, stageWriter, ctxCancelled, splSent, lnRootCount, lnRejected, splSharp, splCutOK, ctxDoneSeen, gcRecv, rcRecv, rcSentOK, lnConsumed, gcSent, errRecv
+//@   modifies Node.children, Node.parent, Node.brnch.value, Node.brnch.path, list.List.view, list.Element.backOf, counter.n, bufio.Scanner.pos, bufio.Scanner.failed, markdown.Parser.isSharpRoot, markdown.Parser.spaces, markdown.Parser.sep, out, wfail, defaultSpreaderSimple.w, encTrace, encoders, libWriter, libFailed, libCalls, libReader, lastCtxLive, lastConfig, lastForest, lnNodes, rsRoots, rsFailed, rsStopped, rsErr, gsRoots, gsFailed, gsStopped, gsErr, spRoots, spText, dryRoots, esFailed, errSent, stageSpread, stageWriter, ctxCancelled, splSent, lnRootCount, lnRejected, splSharp, splCutOK, ctxDoneSeen, gcRecv, rcRecv, rcSentOK, lnConsumed, gcSent, errRecv, counter.mu.wheld, counter.mu.rheld, markdown.Parser.mu.wheld, defaultSpreaderPipeline.Mutex.held
 //@   ghostset lastConfig := cfg
 //@   ghostset libWriter := w
 //@   ghostset libFailed := old(libFailed) || result != nil
@@ -1247,7 +1251,7 @@ func lemmaRawAllIsRenderAll(last, mid branchFormat, roots []*Node, i int) {
 //@ contract fromMarkdownWalk
 //@   param callback follows walkCallback
 //@   requires live: !cbFailed
-//@   modifies Node.children, Node.parent, Node.brnch.value, Node.brnch.path, list.List.view, list.Element.backOf, counter.n, bufio.Scanner.pos, bufio.Scanner.failed, markdown.Parser.isSharpRoot, markdown.Parser.spaces, markdown.Parser.sep, cbTrace, cbFailed, cbLastErr, cbAfterFail, lastConfig, lastForest, lnNodes, errSent, ctxCancelled, splSent, lnRootCount, lnRejected, splSharp, splCutOK, ctxDoneSeen, gcRecv, rcRecv, rcSentOK, lnConsumed, gcSent, errRecv
+//@   modifies Node.children, Node.parent, Node.brnch.value, Node.brnch.path, list.List.view, list.Element.backOf, counter.n, bufio.Scanner.pos, bufio.Scanner.failed, markdown.Parser.isSharpRoot, markdown.Parser.spaces, markdown.Parser.sep, cbTrace, cbFailed, cbLastErr, cbAfterFail, lastConfig, lastForest, lnNodes, errSent, ctxCancelled, splSent, lnRootCount, lnRejected, splSharp, splCutOK, ctxDoneSeen, gcRecv, rcRecv, rcSentOK, lnConsumed, gcSent, errRecv, counter.mu.wheld, counter.mu.rheld, markdown.Parser.mu.wheld
 //@   ghostset lastConfig := cfg
 //@   ensures walk [C05,C03,C12]: fresh(lastConfig) && (!lastConfig.massive ==> cbAfterFail == old(cbAfterFail) && (result == nil ==> !cbFailed && (allRoots(lastForest) && cbTrace == old(cbTrace) ++ specPreorderAll(lastForest, len(lastForest)))) && (cbFailed ==> result == cbLastErr && result != nil))
 //@ applies fromMarkdownWalk to gtree.WalkFromMarkdown, gtree.Walk
@@ -1296,8 +1300,8 @@ func lemmaRawAllIsRenderAll(last, mid branchFormat, roots []*Node, i int) {
 //@   ensures lines [C02]: !rsStopped && !rsFailed && rg != nil && rg.scanner != nil ==> len(lnNodes) == len(rg.scanner.lines) && (forall j int :: {lnNodes[j]} 0 <= j && j < len(rg.scanner.lines) ==> (md.allSpace(rg.scanner.lines[j]) ==> lnNodes[j] == nil) && (!md.allSpace(rg.scanner.lines[j]) ==> lineRepr(rg.scanner.lines[j], lnNodes[j]) && (lnNodes[j].hierarchy == 1 ==> contains(rsRoots, lnNodes[j]))))
 //@   ensures reported [C14]: !rsStopped && rg != nil && rg.scanner != nil && rg.scanner.failed ==> rsFailed
 //@   ensures consumed [C02]: !rsStopped && !rsFailed && rg != nil && rg.scanner != nil ==> rg.scanner.pos == len(rg.scanner.lines)
-//@   modifies Node.brnch.value, Node.brnch.path, out, wfail, defaultSpreaderSimple.w, counter.n, gsRoots, gsFailed, gsStopped, gsErr, spRoots, spText, esFailed, encTrace, encoders
-//@   resumes Node.children, Node.parent, list.List.view, list.Element.backOf, counter.n, bufio.Scanner.pos, bufio.Scanner.failed, markdown.Parser.isSharpRoot, markdown.Parser.spaces, markdown.Parser.sep
+//@   modifies Node.brnch.value, Node.brnch.path, out, wfail, defaultSpreaderSimple.w, counter.n, gsRoots, gsFailed, gsStopped, gsErr, spRoots, spText, esFailed, encTrace, encoders, counter.mu.wheld, counter.mu.rheld
+//@   resumes Node.children, Node.parent, list.List.view, list.Element.backOf, counter.n, bufio.Scanner.pos, bufio.Scanner.failed, markdown.Parser.isSharpRoot, markdown.Parser.spaces, markdown.Parser.sep, counter.mu.wheld, counter.mu.rheld, markdown.Parser.mu.wheld
 
 // g: the grower that produces the stream (nil when a generator's stream is used directly: nothing is grown then)
 //@ stream grownStream(n, e)
@@ -1311,8 +1315,8 @@ func lemmaRawAllIsRenderAll(last, mid branchFormat, roots []*Node, i int) {
 //@   records gsFailed := gsFailed || e != nil
 //@   records gsErr := e
 //@   stops gsStopped
-//@   modifies out, wfail, defaultSpreaderSimple.w, counter.n, spRoots, spText, esFailed
-//@   resumes Node.children, Node.parent, list.List.view, list.Element.backOf, counter.n, bufio.Scanner.pos, bufio.Scanner.failed, markdown.Parser.isSharpRoot, markdown.Parser.spaces, markdown.Parser.sep, Node.brnch.value, Node.brnch.path, rsRoots, rsFailed, rsStopped, rsErr, lnNodes
+//@   modifies out, wfail, defaultSpreaderSimple.w, counter.n, spRoots, spText, esFailed, counter.mu.wheld, counter.mu.rheld
+//@   resumes Node.children, Node.parent, list.List.view, list.Element.backOf, counter.n, bufio.Scanner.pos, bufio.Scanner.failed, markdown.Parser.isSharpRoot, markdown.Parser.spaces, markdown.Parser.sep, Node.brnch.value, Node.brnch.path, rsRoots, rsFailed, rsStopped, rsErr, lnNodes, counter.mu.wheld, counter.mu.rheld, markdown.Parser.mu.wheld
 //@   ensures all [C01,C02]: !gsFailed && !gsStopped ==> gsRoots == rsRoots && !rsFailed && !rsStopped
 
 // sp: the spreader, w: the writer it was given, g: the grower whose stream it consumes (nil: none)
@@ -1324,7 +1328,7 @@ func lemmaRawAllIsRenderAll(last, mid branchFormat, roots []*Node, i int) {
 //@   records esFailed := true
 //@   tracks spRoots, spText
 //@   modifies nothing
-//@   resumes Node.children, Node.parent, list.List.view, list.Element.backOf, counter.n, bufio.Scanner.pos, bufio.Scanner.failed, markdown.Parser.isSharpRoot, markdown.Parser.spaces, markdown.Parser.sep, Node.brnch.value, Node.brnch.path, out, wfail, defaultSpreaderSimple.w, rsRoots, rsFailed, rsStopped, rsErr, gsRoots, gsFailed, gsStopped, gsErr, spRoots, spText, encTrace, encoders, lnNodes
+//@   resumes Node.children, Node.parent, list.List.view, list.Element.backOf, counter.n, bufio.Scanner.pos, bufio.Scanner.failed, markdown.Parser.isSharpRoot, markdown.Parser.spaces, markdown.Parser.sep, Node.brnch.value, Node.brnch.path, out, wfail, defaultSpreaderSimple.w, rsRoots, rsFailed, rsStopped, rsErr, gsRoots, gsFailed, gsStopped, gsErr, spRoots, spText, encTrace, encoders, lnNodes, counter.mu.wheld, counter.mu.rheld, markdown.Parser.mu.wheld
 //@   ensures accepted [C14]: !esFailed ==> old(wfail) || !wfail
 //@   ensures text [C01,C09]: !esFailed && g != nil && (isType(sp, defaultSpreaderSimple) || isType(sp, colorizeSpreaderSimple)) ==> out[w] == old(out[w]) ++ spText
 //@   ensures all [C01,C02]: !esFailed ==> spRoots == rsRoots && !rsFailed && !rsStopped
@@ -1340,7 +1344,7 @@ func lemmaRawAllIsRenderAll(last, mid branchFormat, roots []*Node, i int) {
 //@   after generate: lnNodes := (result0 == nil && result1 == nil) ? lnNodes ++ seqof(nil) : lnNodes
 //@   after push: lnNodes := lnNodes ++ seqof(arg0)
 //@   after dfs: lnNodes := result ? lnNodes ++ seqof(as(last(recv.nodes.view), Node)) : lnNodes
-//@   modifies lnNodes, Node.children, Node.parent, list.List.view, list.Element.backOf, counter.n, bufio.Scanner.pos, bufio.Scanner.failed, markdown.Parser.isSharpRoot, markdown.Parser.spaces, markdown.Parser.sep, Node.brnch.value, Node.brnch.path, out, wfail, defaultSpreaderSimple.w, rsRoots, rsFailed, rsStopped, rsErr, gsRoots, gsFailed, gsStopped, gsErr, spRoots, spText, esFailed, encTrace, encoders
+//@   modifies lnNodes, Node.children, Node.parent, list.List.view, list.Element.backOf, counter.n, bufio.Scanner.pos, bufio.Scanner.failed, markdown.Parser.isSharpRoot, markdown.Parser.spaces, markdown.Parser.sep, Node.brnch.value, Node.brnch.path, out, wfail, defaultSpreaderSimple.w, rsRoots, rsFailed, rsStopped, rsErr, gsRoots, gsFailed, gsStopped, gsErr, spRoots, spText, esFailed, encTrace, encoders, counter.mu.wheld, counter.mu.rheld, markdown.Parser.mu.wheld
 //@ loop gtree.rootGeneratorSimple.generateIter#1#1
 //@   invariant ok: genOK(rg)
 //@   invariant live: !rsFailed && !rsStopped
@@ -1359,7 +1363,7 @@ func lemmaRawAllIsRenderAll(last, mid branchFormat, roots []*Node, i int) {
 //@ closure gtree.defaultGrowerSimple.growIter#1
 //@   yields grownStream(dg)
 //@   requires nn: dg != nil
-//@   modifies Node.children, Node.parent, list.List.view, list.Element.backOf, counter.n, bufio.Scanner.pos, bufio.Scanner.failed, markdown.Parser.isSharpRoot, markdown.Parser.spaces, markdown.Parser.sep, Node.brnch.value, Node.brnch.path, out, wfail, defaultSpreaderSimple.w, lnNodes, rsRoots, rsFailed, rsStopped, rsErr, gsRoots, gsFailed, gsStopped, gsErr, spRoots, spText, esFailed
+//@   modifies Node.children, Node.parent, list.List.view, list.Element.backOf, counter.n, bufio.Scanner.pos, bufio.Scanner.failed, markdown.Parser.isSharpRoot, markdown.Parser.spaces, markdown.Parser.sep, Node.brnch.value, Node.brnch.path, out, wfail, defaultSpreaderSimple.w, lnNodes, rsRoots, rsFailed, rsStopped, rsErr, gsRoots, gsFailed, gsStopped, gsErr, spRoots, spText, esFailed, counter.mu.wheld, counter.mu.rheld, markdown.Parser.mu.wheld
 //@ loop gtree.defaultGrowerSimple.growIter#1#1
 //@   invariant relay [C01,C02]: gsRoots == rsRoots && !rsFailed && !rsStopped && !gsFailed && !gsStopped
 
@@ -1375,7 +1379,7 @@ func lemmaRawAllIsRenderAll(last, mid branchFormat, roots []*Node, i int) {
 //@ closure gtree.defaultSpreaderSimple.spreadIter#1
 //@   yields errStream(ds, w, g)
 //@   requires nn: ds != nil
-//@   modifies Node.children, Node.parent, list.List.view, list.Element.backOf, counter.n, bufio.Scanner.pos, bufio.Scanner.failed, markdown.Parser.isSharpRoot, markdown.Parser.spaces, markdown.Parser.sep, Node.brnch.value, Node.brnch.path, out, wfail, defaultSpreaderSimple.w, lnNodes, rsRoots, rsFailed, rsStopped, rsErr, gsRoots, gsFailed, gsStopped, gsErr, spRoots, spText, esFailed
+//@   modifies Node.children, Node.parent, list.List.view, list.Element.backOf, counter.n, bufio.Scanner.pos, bufio.Scanner.failed, markdown.Parser.isSharpRoot, markdown.Parser.spaces, markdown.Parser.sep, Node.brnch.value, Node.brnch.path, out, wfail, defaultSpreaderSimple.w, lnNodes, rsRoots, rsFailed, rsStopped, rsErr, gsRoots, gsFailed, gsStopped, gsErr, spRoots, spText, esFailed, counter.mu.wheld, counter.mu.rheld, markdown.Parser.mu.wheld
 //@   use lemma lemmaRawIsRender
 //@   after next: spRoots := (result2 && result1 == nil) ? spRoots ++ seqof(result0) : spRoots
 //@   after next: spText := (result2 && result1 == nil) ? spText ++ specRender(g.lastNodeFormat, g.intermedialNodeFormat, result0) : spText
@@ -1392,7 +1396,7 @@ func lemmaRawAllIsRenderAll(last, mid branchFormat, roots []*Node, i int) {
 //@ closure gtree.colorizeSpreaderSimple.spreadIter#1
 //@   yields errStream(cs, w, g)
 //@   requires ok: colorizeOK(cs)
-//@   modifies Node.children, Node.parent, list.List.view, list.Element.backOf, counter.n, bufio.Scanner.pos, bufio.Scanner.failed, markdown.Parser.isSharpRoot, markdown.Parser.spaces, markdown.Parser.sep, Node.brnch.value, Node.brnch.path, out, wfail, defaultSpreaderSimple.w, lnNodes, rsRoots, rsFailed, rsStopped, rsErr, gsRoots, gsFailed, gsStopped, gsErr, spRoots, spText, esFailed
+//@   modifies Node.children, Node.parent, list.List.view, list.Element.backOf, counter.n, bufio.Scanner.pos, bufio.Scanner.failed, markdown.Parser.isSharpRoot, markdown.Parser.spaces, markdown.Parser.sep, Node.brnch.value, Node.brnch.path, out, wfail, defaultSpreaderSimple.w, lnNodes, rsRoots, rsFailed, rsStopped, rsErr, gsRoots, gsFailed, gsStopped, gsErr, spRoots, spText, esFailed, counter.mu.wheld, counter.mu.rheld, markdown.Parser.mu.wheld
 //@   after next: spRoots := (result2 && result1 == nil) ? spRoots ++ seqof(result0) : spRoots
 //@   after next: spText := (result2 && result1 == nil) ? spText ++ specDryRoot(cs.fileColor, cs.dirColor, cs.fileConsiderer.extensions, result0) : spText
 //@ loop gtree.colorizeSpreaderSimple.spreadIter#1#1
@@ -1542,7 +1546,7 @@ func fsExistsAt(p string) bool { _, err := os.Stat(p); return !os.IsNotExist(err
 
 //@ func gtree.treeSimple.mkdir
 //@   requires ok: simpleTreeOK(t, cfg)
-//@   modifies Node.children, Node.parent, Node.brnch.value, Node.brnch.path, list.List.view, list.Element.backOf, counter.n, bufio.Scanner.pos, bufio.Scanner.failed, markdown.Parser.isSharpRoot, markdown.Parser.spaces, markdown.Parser.sep, fsOps, fsFailed, defaultGrowerSimple.enabledValidation, lastForest, lnNodes
+//@   modifies Node.children, Node.parent, Node.brnch.value, Node.brnch.path, list.List.view, list.Element.backOf, counter.n, bufio.Scanner.pos, bufio.Scanner.failed, markdown.Parser.isSharpRoot, markdown.Parser.spaces, markdown.Parser.sep, fsOps, fsFailed, defaultGrowerSimple.enabledValidation, lastForest, lnNodes, counter.mu.wheld, counter.mu.rheld, markdown.Parser.mu.wheld
 //@   ghostset lastForest := roots
 //@   ensures ops [C06]: cfg.encode == encodeDefault && result == nil ==> (allRoots(lastForest) && !specAnyRootExists(as(t.mkdirer, defaultMkdirerSimple).targetDir, lastForest, 0) && fsOps == old(fsOps) ++ specMkOpsAll(as(t.mkdirer, defaultMkdirerSimple).targetDir, cfg.fileExtensions, lastForest, len(lastForest)) && fsFailed == old(fsFailed))
 //@   ensures validated [C07]: cfg.encode == encodeDefault && fsOps != old(fsOps) ==> ((forall k int :: {lastForest[k]} 0 <= k && k < len(lastForest) ==> validated(lastForest[k])))
@@ -1551,7 +1555,7 @@ func fsExistsAt(p string) bool { _, err := os.Stat(p); return !os.IsNotExist(err
 
 //@ func gtree.treeSimple.mkdirProgrammably
 //@   requires ok: simpleTreeOK(t, cfg) && root != nil && root.hierarchy == 1
-//@   modifies Node.brnch.value, Node.brnch.path, fsOps, fsFailed, defaultGrowerSimple.enabledValidation, out, wfail, counter.n, spText
+//@   modifies Node.brnch.value, Node.brnch.path, fsOps, fsFailed, defaultGrowerSimple.enabledValidation, out, wfail, counter.n, spText, counter.mu.wheld, counter.mu.rheld
 //@   ensures ops [C06,C03]: cfg.encode == encodeDefault && !cfg.dryrun && result == nil ==> !fsExistsAt(fpJoin2(as(t.mkdirer, defaultMkdirerSimple).targetDir, root.name)) && fsOps == old(fsOps) ++ specMkOps(as(t.mkdirer, defaultMkdirerSimple).targetDir, cfg.fileExtensions, root) && fsFailed == old(fsFailed)
 //@   ensures exists [C06]: cfg.encode == encodeDefault && !cfg.dryrun && fsExistsAt(fpJoin2(as(t.mkdirer, defaultMkdirerSimple).targetDir, root.name)) ==> result != nil && fsOps == old(fsOps)
 //@   ensures validated [C07]: cfg.encode == encodeDefault && fsOps != old(fsOps) ==> validated(root)
@@ -1561,11 +1565,11 @@ func fsExistsAt(p string) bool { _, err := os.Stat(p); return !os.IsNotExist(err
 
 //@ func gtree.treePipeline.mkdir
 //@   requires ok: pipelineTreeOK(t, cfg)
-//@   modifies Node.children, Node.parent, Node.brnch.value, Node.brnch.path, list.List.view, list.Element.backOf, counter.n, bufio.Scanner.pos, bufio.Scanner.failed, markdown.Parser.isSharpRoot, markdown.Parser.spaces, markdown.Parser.sep, fsOps, fsFailed, defaultGrowerSimple.enabledValidation, lastForest, lnNodes, errSent, mkSeen, ctxCancelled, splSent, lnRootCount, lnRejected, splSharp, splCutOK, ctxDoneSeen, gcRecv, rcRecv, rcSentOK, lnConsumed, gcSent, errRecv
+//@   modifies Node.children, Node.parent, Node.brnch.value, Node.brnch.path, list.List.view, list.Element.backOf, counter.n, bufio.Scanner.pos, bufio.Scanner.failed, markdown.Parser.isSharpRoot, markdown.Parser.spaces, markdown.Parser.sep, fsOps, fsFailed, defaultGrowerSimple.enabledValidation, lastForest, lnNodes, errSent, mkSeen, ctxCancelled, splSent, lnRootCount, lnRejected, splSharp, splCutOK, ctxDoneSeen, gcRecv, rcRecv, rcSentOK, lnConsumed, gcSent, errRecv, counter.mu.wheld, counter.mu.rheld, markdown.Parser.mu.wheld
 //@   ensures reported [C14]: result == nil ==> errRecv == old(errRecv)
 //@ func gtree.treePipeline.mkdirProgrammably
 //@   requires ok: pipelineTreeOK(t, cfg) && root != nil && root.hierarchy == 1
-//@   modifies Node.brnch.value, Node.brnch.path, fsOps, fsFailed, defaultGrowerSimple.enabledValidation, out, wfail, counter.n, spText, dryRoots, errSent, mkSeen, ctxCancelled, splSent, lnNodes, lnRootCount, lnRejected, splSharp, splCutOK, ctxDoneSeen, gcRecv, rcRecv, rcSentOK, lnConsumed, gcSent, errRecv
+//@   modifies Node.brnch.value, Node.brnch.path, fsOps, fsFailed, defaultGrowerSimple.enabledValidation, out, wfail, counter.n, spText, dryRoots, errSent, mkSeen, ctxCancelled, splSent, lnNodes, lnRootCount, lnRejected, splSharp, splCutOK, ctxDoneSeen, gcRecv, rcRecv, rcSentOK, lnConsumed, gcSent, errRecv, counter.mu.wheld, counter.mu.rheld
 //@   ensures reported [C14]: result == nil ==> errRecv == old(errRecv)
 //@   ensures dryrun [C09]: cfg.dryrun ==> fsOps == old(fsOps) && fsFailed == old(fsFailed)
 //@   carries rootStream: rootChan
@@ -1575,7 +1579,7 @@ func fsExistsAt(p string) bool { _, err := os.Stat(p); return !os.IsNotExist(err
 //@   modifies rcSentOK
 
 //@ contract fromMarkdownMkdir
-//@   modifies Node.children, Node.parent, Node.brnch.value, Node.brnch.path, list.List.view, list.Element.backOf, counter.n, bufio.Scanner.pos, bufio.Scanner.failed, markdown.Parser.isSharpRoot, markdown.Parser.spaces, markdown.Parser.sep, fsOps, fsFailed, defaultGrowerSimple.enabledValidation, libFailed, libCalls, libReader, lastCtxLive, lastConfig, lastForest, lnNodes, errSent, mkSeen, ctxCancelled, splSent, lnRootCount, lnRejected, splSharp, splCutOK, ctxDoneSeen, gcRecv, rcRecv, rcSentOK, lnConsumed, gcSent, errRecv
+//@   modifies Node.children, Node.parent, Node.brnch.value, Node.brnch.path, list.List.view, list.Element.backOf, counter.n, bufio.Scanner.pos, bufio.Scanner.failed, markdown.Parser.isSharpRoot, markdown.Parser.spaces, markdown.Parser.sep, fsOps, fsFailed, defaultGrowerSimple.enabledValidation, libFailed, libCalls, libReader, lastCtxLive, lastConfig, lastForest, lnNodes, errSent, mkSeen, ctxCancelled, splSent, lnRootCount, lnRejected, splSharp, splCutOK, ctxDoneSeen, gcRecv, rcRecv, rcSentOK, lnConsumed, gcSent, errRecv, counter.mu.wheld, counter.mu.rheld, markdown.Parser.mu.wheld
 //@   ghostset lastConfig := cfg
 //@   ghostset libFailed := old(libFailed) || result != nil
 //@   ghostset libCalls := old(libCalls) + 1
@@ -1587,7 +1591,7 @@ func fsExistsAt(p string) bool { _, err := os.Stat(p); return !os.IsNotExist(err
 //@ applies fromMarkdownMkdir to gtree.MkdirFromMarkdown, gtree.Mkdir
 
 //@ contract fromRootMkdir
-//@   modifies Node.brnch.value, Node.brnch.path, fsOps, fsFailed, defaultGrowerSimple.enabledValidation, out, wfail, counter.n, lastConfig, spText, dryRoots, errSent, mkSeen, ctxCancelled, splSent, lnNodes, lnRootCount, lnRejected, splSharp, splCutOK, ctxDoneSeen, gcRecv, rcRecv, rcSentOK, lnConsumed, gcSent, errRecv
+//@   modifies Node.brnch.value, Node.brnch.path, fsOps, fsFailed, defaultGrowerSimple.enabledValidation, out, wfail, counter.n, lastConfig, spText, dryRoots, errSent, mkSeen, ctxCancelled, splSent, lnNodes, lnRootCount, lnRejected, splSharp, splCutOK, ctxDoneSeen, gcRecv, rcRecv, rcSentOK, lnConsumed, gcSent, errRecv, counter.mu.wheld, counter.mu.rheld
 //@   ghostset lastConfig := cfg
 //@   ensures nilnode [C03]: root == nil ==> result == ErrNilNode && fsOps == old(fsOps)
 //@   ensures notroot [C03]: root != nil && root.hierarchy != 1 ==> result == ErrNotRoot && fsOps == old(fsOps)
@@ -1737,7 +1741,7 @@ func specVerifyText(strict bool, extra, noExists []string) string {
 
 //@ func gtree.treeSimple.verify
 //@   requires ok: simpleTreeOK(t, cfg)
-//@   modifies Node.children, Node.parent, Node.brnch.value, Node.brnch.path, list.List.view, list.Element.backOf, counter.n, bufio.Scanner.pos, bufio.Scanner.failed, markdown.Parser.isSharpRoot, markdown.Parser.spaces, markdown.Parser.sep, defaultGrowerSimple.enabledValidation, maps, lastForest, lnNodes
+//@   modifies Node.children, Node.parent, Node.brnch.value, Node.brnch.path, list.List.view, list.Element.backOf, counter.n, bufio.Scanner.pos, bufio.Scanner.failed, markdown.Parser.isSharpRoot, markdown.Parser.spaces, markdown.Parser.sep, defaultGrowerSimple.enabledValidation, maps, lastForest, lnNodes, counter.mu.wheld, counter.mu.rheld, markdown.Parser.mu.wheld
 //@   ghostset lastForest := roots
 //@   ensures ok [C08]: cfg.encode == encodeDefault && result == nil ==> (allRoots(lastForest) && (forall k int :: {lastForest[k]} 0 <= k && k < len(lastForest) ==> validated(lastForest[k]) && rootMatches(as(t.verifier, defaultVerifierSimple), lastForest[k])))
 //@   ensures fsframe [C08]: fsOps == old(fsOps) && fsFailed == old(fsFailed)
@@ -1750,7 +1754,7 @@ func specVerifyText(strict bool, extra, noExists []string) string {
 
 //@ func gtree.treePipeline.verify
 //@   requires ok: pipelineTreeOK(t, cfg)
-//@   modifies Node.children, Node.parent, Node.brnch.value, Node.brnch.path, list.List.view, list.Element.backOf, counter.n, bufio.Scanner.pos, bufio.Scanner.failed, markdown.Parser.isSharpRoot, markdown.Parser.spaces, markdown.Parser.sep, defaultGrowerSimple.enabledValidation, maps, lastForest, lnNodes, errSent, vfSeen, ctxCancelled, splSent, lnRootCount, lnRejected, splSharp, splCutOK, ctxDoneSeen, gcRecv, rcRecv, rcSentOK, lnConsumed, gcSent, errRecv
+//@   modifies Node.children, Node.parent, Node.brnch.value, Node.brnch.path, list.List.view, list.Element.backOf, counter.n, bufio.Scanner.pos, bufio.Scanner.failed, markdown.Parser.isSharpRoot, markdown.Parser.spaces, markdown.Parser.sep, defaultGrowerSimple.enabledValidation, maps, lastForest, lnNodes, errSent, vfSeen, ctxCancelled, splSent, lnRootCount, lnRejected, splSharp, splCutOK, ctxDoneSeen, gcRecv, rcRecv, rcSentOK, lnConsumed, gcSent, errRecv, counter.mu.wheld, counter.mu.rheld, markdown.Parser.mu.wheld
 //@   ensures reported [C14]: result == nil ==> errRecv == old(errRecv)
 //@   ensures fsframe [C08]: fsOps == old(fsOps) && fsFailed == old(fsFailed)
 //@ func gtree.treePipeline.verifyProgrammably
@@ -1765,7 +1769,7 @@ func specVerifyText(strict bool, extra, noExists []string) string {
 //@   modifies rcSentOK
 
 //@ contract fromMarkdownVerify
-//@   modifies Node.children, Node.parent, Node.brnch.value, Node.brnch.path, list.List.view, list.Element.backOf, counter.n, bufio.Scanner.pos, bufio.Scanner.failed, markdown.Parser.isSharpRoot, markdown.Parser.spaces, markdown.Parser.sep, defaultGrowerSimple.enabledValidation, maps, libFailed, libCalls, libReader, lastCtxLive, lastConfig, lastForest, lnNodes, errSent, vfSeen, ctxCancelled, splSent, lnRootCount, lnRejected, splSharp, splCutOK, ctxDoneSeen, gcRecv, rcRecv, rcSentOK, lnConsumed, gcSent, errRecv
+//@   modifies Node.children, Node.parent, Node.brnch.value, Node.brnch.path, list.List.view, list.Element.backOf, counter.n, bufio.Scanner.pos, bufio.Scanner.failed, markdown.Parser.isSharpRoot, markdown.Parser.spaces, markdown.Parser.sep, defaultGrowerSimple.enabledValidation, maps, libFailed, libCalls, libReader, lastCtxLive, lastConfig, lastForest, lnNodes, errSent, vfSeen, ctxCancelled, splSent, lnRootCount, lnRejected, splSharp, splCutOK, ctxDoneSeen, gcRecv, rcRecv, rcSentOK, lnConsumed, gcSent, errRecv, counter.mu.wheld, counter.mu.rheld, markdown.Parser.mu.wheld
 //@   ghostset lastConfig := cfg
 //@   ghostset libFailed := old(libFailed) || result != nil
 //@   ghostset libCalls := old(libCalls) + 1
@@ -1776,7 +1780,7 @@ func specVerifyText(strict bool, extra, noExists []string) string {
 //@ applies fromMarkdownVerify to gtree.VerifyFromMarkdown, gtree.Verify
 
 //@ contract fromRootVerify
-//@   modifies Node.brnch.value, Node.brnch.path, defaultGrowerSimple.enabledValidation, maps, counter.n, lastConfig, errSent, vfSeen, ctxCancelled, splSent, lnNodes, lnRootCount, lnRejected, splSharp, splCutOK, ctxDoneSeen, gcRecv, rcRecv, rcSentOK, lnConsumed, gcSent, errRecv
+//@   modifies Node.brnch.value, Node.brnch.path, defaultGrowerSimple.enabledValidation, maps, counter.n, lastConfig, errSent, vfSeen, ctxCancelled, splSent, lnNodes, lnRootCount, lnRejected, splSharp, splCutOK, ctxDoneSeen, gcRecv, rcRecv, rcSentOK, lnConsumed, gcSent, errRecv, counter.mu.wheld, counter.mu.rheld
 //@   ensures nilnode [C03]: root == nil ==> result == ErrNilNode
 //@   ensures notroot [C03]: root != nil && root.hierarchy != 1 ==> result == ErrNotRoot
 //@   ensures fsframe [C08,C12]: fsOps == old(fsOps) && fsFailed == old(fsFailed)
@@ -1886,14 +1890,14 @@ func specDryReport(fileColor, dirColor *color.Color, ext []string, roots []*Node
 
 //@ func gtree.colorizeSpreaderSimple.colorize
 //@   requires ok: colorizeOK(cs) && current != nil
-//@   modifies cs.fileCounter.n, cs.dirCounter.n
+//@   modifies cs.fileCounter.n, cs.dirCounter.n, counter.mu.wheld
 //@   ensures name [C09]: result == specDryName(cs.fileColor, cs.dirColor, cs.fileConsiderer.extensions, current)
 //@   ensures file [C09]: specIsFile(cs.fileConsiderer.extensions, current) ==> cs.fileCounter.n == old(cs.fileCounter.n) + 1 && cs.dirCounter.n == old(cs.dirCounter.n)
 //@   ensures dir [C09]: !specIsFile(cs.fileConsiderer.extensions, current) ==> cs.dirCounter.n == old(cs.dirCounter.n) + 1 && cs.fileCounter.n == old(cs.fileCounter.n)
 
 //@ func gtree.colorizeSpreaderSimple.spreadBranch
 //@   requires ok: colorizeOK(cs) && current != nil
-//@   modifies cs.fileCounter.n, cs.dirCounter.n
+//@   modifies cs.fileCounter.n, cs.dirCounter.n, counter.mu.wheld
 //@   decreases down(current)
 //@   ensures text [C09]: result == specDry(cs.fileColor, cs.dirColor, cs.fileConsiderer.extensions, current)
 //@   ensures counts [C09]: cs.fileCounter.n == old(cs.fileCounter.n) + specCountFiles(cs.fileConsiderer.extensions, current) && cs.dirCounter.n == old(cs.dirCounter.n) + specCountDirs(cs.fileConsiderer.extensions, current)
@@ -1903,6 +1907,7 @@ func specDryReport(fileColor, dirColor *color.Color, ext []string, roots []*Node
 
 //@ func gtree.colorizeSpreaderSimple.summary
 //@   requires ok: colorizeOK(cs)
+//@   modifies counter.mu.rheld
 //@   ensures counts [C09]: result == specFmtCounts(cs.dirCounter.n, cs.fileCounter.n)
 
 //@ func gtree.colorizeSpreaderSimple.write
@@ -1995,7 +2000,7 @@ func specDryReport(fileColor, dirColor *color.Color, ext []string, roots []*Node
 //@ contract formattedSpreadIterBody
 //@   yields errStream(f, w, nil)
 //@   requires nn: f != nil && f.encode != nil && f.formattedRoot != nil
-//@   modifies Node.children, Node.parent, list.List.view, list.Element.backOf, counter.n, bufio.Scanner.pos, bufio.Scanner.failed, markdown.Parser.isSharpRoot, markdown.Parser.spaces, markdown.Parser.sep, Node.brnch.value, Node.brnch.path, out, wfail, defaultSpreaderSimple.w, lnNodes, rsRoots, rsFailed, rsStopped, rsErr, gsRoots, gsFailed, gsStopped, gsErr, spRoots, spText, esFailed, encTrace, encoders
+//@   modifies Node.children, Node.parent, list.List.view, list.Element.backOf, counter.n, bufio.Scanner.pos, bufio.Scanner.failed, markdown.Parser.isSharpRoot, markdown.Parser.spaces, markdown.Parser.sep, Node.brnch.value, Node.brnch.path, out, wfail, defaultSpreaderSimple.w, lnNodes, rsRoots, rsFailed, rsStopped, rsErr, gsRoots, gsFailed, gsStopped, gsErr, spRoots, spText, esFailed, encTrace, encoders, counter.mu.wheld, counter.mu.rheld, markdown.Parser.mu.wheld
 //@   after next: spRoots := (result2 && result1 == nil) ? spRoots ++ seqof(result0) : spRoots
 //@   ensures once [C04]: encoders == old(encoders) + 1
 //@   ensures trace [C04]: !esFailed ==> len(encTrace) == len(old(encTrace)) + len(spRoots) && (forall k int :: {spRoots[k]} 0 <= k && k < len(spRoots) ==> isType(encTrace[len(old(encTrace)) + k], $T) && as(encTrace[len(old(encTrace)) + k], $T).Name == spRoots[k].name)
